@@ -79,6 +79,7 @@ type driver struct {
 	rng  *rand.Rand
 	slot time.Duration
 
+	injMu sync.Mutex // one injected message at a time
 	mu    sync.Mutex // log order
 	out   *bufio.Writer
 	enc   *json.Encoder
@@ -354,6 +355,10 @@ func (d *driver) message(kind, sub string, id uint16, from *ping) (frame []byte,
 }
 
 func (d *driver) inject(kind, sub string, id uint16, from *ping, logit bool) {
+	// one message at a time (the trace has one inject/parsed pair in flight): the driver's own injections
+	// and those made from inside a ping's send function take turns
+	d.injMu.Lock()
+	defer d.injMu.Unlock()
 	frame, sub := d.message(kind, sub, id, from)
 	cp := make([]byte, len(frame), len(frame)+d.rng.Intn(32))
 	copy(cp, frame)
